@@ -2,6 +2,7 @@
 from __future__ import annotations
 
 import os
+import re
 
 from hypothesis import strategies as st
 
@@ -20,7 +21,7 @@ RULE = ('Canonical merchants.rules and views files from the generators x layout-
         'and `tally diag` report the loader error (or exit non-zero), never proceed as if there were no rules. Non-trivial = file '
         'with >=2 sections and an edit touching >=3 lines, or a corruption outside the first section; distinct by hash.')
 ASSUMPTIONS = ['views files: headers at column 0 and lower-case `filter:`/`description:` keys (the statement lists key case and indented headers for merchants files only)']
-REQUIRED_CLASSES = ['merchants_edit', 'views_edit', 'crlf', 'permuted_props', 'corrupt_merchants', 'corrupt_views', 'corrupt_toplevel', 'cli_corrupt_rules']
+REQUIRED_CLASSES = ['merchants_edit', 'views_edit', 'crlf', 'permuted_props', 'corrupt_merchants', 'corrupt_views', 'corrupt_toplevel', 'cli_corrupt_rules', 'cli_corrupt_views']
 
 # ------------------------------------------------------------------------------------------------
 # canonical structures
@@ -421,6 +422,36 @@ CLI_CORRUPT = ['[Broken]\ncategory: X\n', '[A]\nmatch: contains("UBER"\ncategory
                '[A]\nmatch: contains("UBER")\ncategory: Transport\n\n[B]\nmatch: lambda: 1\ncategory: Y\n', '[A]\nmatch: contains("UBER")\npriority: high\ncategory: X\n']
 
 
+# (text, lines an error may name: the corrupted line or the header of its section)
+CLI_CORRUPT_VIEWS = [('[Subs\nfilter: total > 1\n', {1}), ('[Subs]\nfilter: total >\n', {1, 2}), ('[Subs]\nfilter: total > 1\n\n[Empty]\n# nothing\n', {4}),
+                     ('big = total >\n\n[Subs]\nfilter: total > 1\n', {1}), ('[Subs]\nfilter: total > 1\nmatch: x\n', {1, 3})]
+
+
+def check_cli_views(case, stats: Stats):
+    """a views file that cannot be loaded is reported (with its line) by `tally up`, not silently treated as "no views" """
+    from tv.drv import cli
+    text, allowed = CLI_CORRUPT_VIEWS[case['which'] % len(CLI_CORRUPT_VIEWS)]
+    with cli.Budget() as b:
+        b.write('config/settings.yaml', 'year: 2024\nmerchants_file: config/merchants.rules\nviews_file: config/views.rules\ndata_sources:\n  - name: Bank\n    file: data/bank.csv\n'
+                                        '    format: "{date:%Y-%m-%d},{description},{amount}"\n')
+        b.write('config/merchants.rules', '[Netflix]\nmatch: contains("NETFLIX")\ncategory: Subscriptions\n')
+        b.write('config/views.rules', text)
+        b.write('data/bank.csv', 'Date,Description,Amount\n2024-01-05,UBER TRIP,12.50\n2024-02-05,NETFLIX,9.99\n')
+        for cmd in (['up', '-q', '--format', 'json', b.config], ['up', '--format', 'summary', b.config], ['up', '-q', b.config]):
+            r = cli.run(cmd, cwd=b.root)
+            out = r.out + r.err
+            if 'Traceback' in out:
+                raise Violation(f"`tally {' '.join(cmd[:-1])}` crashed on a corrupt views file:\n{out[-800:]}", {'kind': 'cli_views', 'which': case['which']}, 'cli-views-crash')
+            if not ('views' in out.lower() and ('rror' in out or 'nvalid' in out)):
+                raise Violation(f"`tally {' '.join(cmd[:-1])}` on a budget whose views.rules is corrupt does not report the error (exit {r.code}):\n--- views\n{text}\n--- output\n{out[-1200:]}",
+                                {'kind': 'cli_views', 'which': case['which']}, 'cli-views-swallowed')
+            m = re.search(r'Line (\d+)', out)
+            if m and int(m.group(1)) not in allowed:
+                raise Violation(f'corrupt views file: error reported at line {m.group(1)}, corruption at line(s) {sorted(allowed)}\n{text}\n{out[-600:]}', {'kind': 'cli_views', 'which': case['which']},
+                                'cli-views-line')
+    stats.case(jhash(case), True, {'cli_corrupt_views'}, sample={'views': text})
+
+
 def check_cli(case, stats: Stats):
     from tv.drv import cli
     text = CLI_CORRUPT[case['which'] % len(CLI_CORRUPT)]
@@ -442,7 +473,9 @@ def check_cli(case, stats: Stats):
 
 def replay(case):
     try:
-        if case.get('kind') == 'cli':
+        if case.get('kind') == 'cli_views':
+            check_cli_views(case, Stats())
+        elif case.get('kind') == 'cli':
             check_cli(case, Stats())
         else:
             check(case, Stats())
@@ -462,6 +495,11 @@ def run_shard(kind, n, seed, tier):
             for i in range(len(CLI_CORRUPT)):
                 try:
                     check_cli({'kind': 'cli', 'which': i}, s)
+                except Violation as v:
+                    s.violation(v)
+            for i in range(len(CLI_CORRUPT_VIEWS)):
+                try:
+                    check_cli_views({'kind': 'cli_views', 'which': i}, s)
                 except Violation as v:
                     s.violation(v)
         else:
